@@ -251,6 +251,15 @@ func (g *gen) corpus() {
 			g.add(cs)
 		}
 	}
+	// the server keeps refusing the credentials: two 401 in a row at every position, and 401 for ever
+	for k := 0; k < 5; k++ {
+		cs := &Case{Cfg: Cfg{Proto: 2, Creds: 1, NMedia: 1}, Steps: flowSteps(flowPlay, 1, false, false), CloseDuring: none, Tag: "auth-refused"}
+		setAct(cs, k, variant{MStatus, 401, 0})
+		setAct(cs, k+1, variant{MStatus, 401, k % 2})
+		g.add(cs)
+	}
+	g.add(&Case{Cfg: Cfg{Proto: 0, Creds: 1, NMedia: 1}, Steps: flowSteps(flowPlay, 1, false, false), Forever: 4, CloseDuring: none, Tag: "auth-refused"})
+	g.add(&Case{Cfg: Cfg{Proto: 0, Creds: 0, NMedia: 1}, Steps: flowSteps(flowPlay, 1, false, false), Forever: 4, CloseDuring: none, Tag: "auth-refused"})
 	// back channel
 	g.add(&Case{Cfg: Cfg{Proto: 0, NMedia: 2, Back: 1}, Steps: flowSteps(flowPlay, 2, true, false),
 		Acts: []Act{{}, {MBackCh, 0, 1}}, CloseDuring: none, Tag: "backchannel"})
